@@ -13,6 +13,8 @@ CONSTANTS
   FreshModule = TRUE
   Words = {1}
   FullStropKey = TRUE
+  Docs = {0}
+  PureFilters = TRUE
 VIEW View
 INVARIANT EmitBad
 CHECK_DEADLOCK FALSE
